@@ -2,11 +2,18 @@
 from kernel_main import main, run  # noqa
 
 
+def kind_a(report, tier, seed):
+    from contracts import idexpr
+
+    idexpr.run(report, {"exhaust"})
+
+
 def check(argv):
     return run(
-        "C03", argv, analyses=[],
+        "C03", argv, analyses=[], kind_a=kind_a,
         static_note="",
-        explanation="Kind C: for every kernel of the family with a compressed output level, the stored coordinate set of the output (explicit zeros included, "
+        explanation="Kind A: exhaust_tensor* proved (all expressions, all references): the result is Integer(0) or its support implies the original's support with the reference absent; "
+                    "by induction over the exhaust chain a terminal whose expression is not Integer(0) has structural support. Kind C: for every kernel of the family with a compressed output level, the stored coordinate set of the output (explicit zeros included, "
                     "decoded from the raw arrays of the reference machine) is contained in the structural support of the assignment computed by the oracle "
                     "specs/algebra.support (tensors as stored sets, products = intersections, sums = unions, summation = projection, literals everywhere).",
     )
